@@ -24,6 +24,7 @@ RULE = ('texts over {a B c Я blank ? * ~ . ( [ \\ +}: all of length <=2 and a s
         'operand of & / CONCATENATE; distinct by (formula, valuation)')
 ASSUMPTIONS = ['vf/xlref slicing / wildcard search = the clauses of the statement', 'first arguments of LEFT/RIGHT/MID/SEARCH are texts; counts are integers',
                'text form of floats with more than 15 digits / exponent is not generated', '#VALUE! is demanded exactly for SEARCH misses']
+HOST_SETTINGS = {'shards': lambda shards: [0, 3, 8, 14, 15], 'env': {'VERIF_HOST_DECIMAL': '3'}}
 FLOORS = {'quick': {'evaluations': 20000, 'nontrivial': 10000, 'counters': {'rebuild_law_checked': 500}},
           'thorough': {'evaluations': 600000, 'nontrivial': 300000, 'counters': {'rebuild_law_checked': 15000}}}
 
@@ -42,7 +43,10 @@ JOINERS = ['F12', 'F13', 'F14', 'F15', 'F16', 'F17']
 VALUERS = ['F20', 'F21']
 BASE = {'A1': 'abc', 'B1': 'b', 'C1': 1, 'D1': 1, 'E1': 1, 'H1': 3, 'I1': 1, 'L1': '12'}
 OPERANDS = [5, -3, 0, 12345, True, 1.0, False, 0.0, 1, None, 2.0, -7.0, 2.5, 0.1, -0.25, 'x', 'Yz', '', -0.0, 1e15, 123456789012345.0]      # None = blank cell (override '' is the empty text)
-NUMTEXTS = ['12', ' 12 ', '-3.5', '+7', '1e3', '1E3', '.5', '007', '1.50', '0', '-0', '3.', ' -4', '1e-2', '123456789012']
+NUMTEXTS = ['12', ' 12 ', '-3.5', '+7', '1e3', '1E3', '.5', '007', '1.50', '0', '-0', '3.', ' -4', '1e-2', '123456789012',
+            # percentages, year-month-day dates (day serial), times of day as exact binary fractions, texts that denote no number
+            '50%', '12.34%', '5.6%', '250.75%', '-3%', '0.5%', '100%', '7.125%', ' 8% ', '33.333%', '0.07%', '12345.678%', '2024-01-31', '1900-03-01', '2023-12-31',
+            '12:00', '06:00', '18:00:00', '03:00', '00:00', '12:30', 'abc', 'x y', '%', 'e', '-', 'twelve']
 
 
 def texts(rng, tier):
